@@ -372,6 +372,13 @@ def ghost(r, F):
             tab = tables.table(host, c, fl, pops)
             r.require(tab[1] == "no", host, "ghost loop stops on an empty queue", "table (w<0, w=0, w>0) -> pop: %s" % (tab,),
                       "the ghost queue's shrink loop keeps popping at weight == 0 (an entry heavier than the whole ghost capacity never fits): it never terminates", ln=c.ln)
+    # the only early exit is a disabled ghost queue (capacity == 0): with any other capacity push records the key and update shrinks
+    for host, acts in ((push, [b.idx for b in push.calls_to(r"VecDeque::<T, A>::push_back$")]), (upd, [c.sw.idx for (g, c, fl, extra, pops) in overflow_tests(upd) if g is upd])):
+        found = [(c, fl) for (c, fl) in tables.find_cmp(host, tables.role_field("capacity", G), tables.role_const(0), "comparison of the ghost capacity with 0") if c.op in ("Eq", "Ne")]
+        for c, fl in found:
+            tab = tables.table(host, c, fl, acts)
+            r.require(bool(acts) and tab[1] == "no" and tab[2] != "no", host, "ghost %s: disabled iff capacity == 0" % host.short.rsplit("::", 1)[-1], "table (cap<0, =0, >0) -> proceeds: %s" % (tab,),
+                      "GhostQueue::%s proceeds on (cap<0,=0,>0) = %s: an enabled ghost queue never remembers a key (nothing is ever routed to main on re-insertion) or a disabled one does" % (host.short.rsplit("::", 1)[-1], tab), ln=c.ln)
     cap = [u for u in tables.field_updates(upd, "capacity", G)]
     r.require(len(cap) == 1 and 2 in backslice(upd, cap[0]["stmt"].rv.ops[0], "prov").args, upd, "ghost update stores the new capacity", "capacity := parameter", "GhostQueue::update does not store the new capacity", ln=upd.lo)
     # state moves together
